@@ -1305,6 +1305,8 @@ def parse_unitvalue(s="") :
         units = parse_units("")
     else :
         value = float(tok[0])
+        if len(tok) > 2 :
+            raise ValueError("unexpected whitespace in the units of \""+s+"\".")
         us = ""
         for i in range(1, len(tok)):
             us += tok[i]
